@@ -130,6 +130,7 @@ def evJson : Ev → Json
   | .startFlow b => Json.mkObj [("type", "start_flow"), ("flow_body", js b)]
   | .listen => Json.mkObj [("type", "Listen")]
   | .step n => Json.mkObj [("type", "step"), ("n", Json.num (JsonNumber.fromNat n))]
+  | .hidePrevTurn => Json.mkObj [("type", "hide_prev_turn")]
 
 def handle (op : String) (j : Json) : Except String Json := do
   match op with
@@ -147,6 +148,13 @@ def handle (op : String) (j : Json) : Except String Json := do
       ("intent_and_action", Json.mkObj [("user_intent", js ia.userIntent), ("bot_intent", jopt js ia.botIntent), ("bot_action", js ia.botAction)]),
       ("from_nld", jex flowOutJson (flowFromNld p uuid s)),
       ("value_v2", jex js (postValueV2 p lpl s)),
+      -- the wrapper around literal_eval, driven with literal_eval's OBSERVED behaviour ("raised" | "plain" | "nonplain")
+      ("value_v2_wrapper",
+        let lk := (optStr j "lit").getD "raised"
+        let le : Str → Except Unit Lit := fun _ => if lk == "plain" then .ok (.str []) else if lk == "nonplain" then .ok .ellipsis else .error ()
+        let show_ := fun (r : Except GenValueErr Lit) => match r with
+          | .ok _ => "ok" | .error (.invalidLlmResponse _) => "invalid" | .error (.py _) => "py"
+        Json.mkObj [("as_is", Json.str (show_ (generateValueV2 le p lpl s))), ("repaired", Json.str (show_ (generateValueV2R le p lpl s)))]),
       ("user_intent_v2", js (orUnknownIntent (escapeFlowNameU (stripChars [' '] (match (match getFirstNonemptyLine (p.apply s) with
           | some u => if !u.isEmpty && contains [':'] u then (match getFirstUserIntent [u] with | some t => if !t.isEmpty then some t else none | none => none) else some u
           | none => none) with | none => userWasUnclear | some u => u)))))
